@@ -334,6 +334,17 @@ def burst (m : Sim) (k n : Nat) : Sim :=
     { m with calls := m.calls ++ [(s!"y{k}{i + 1}", r, 0)],
              st := settle { m.st with created := r + 1, place := upd m.st.place r .ops } }) m
 
+/-- the terminal answers the command `tag` (general or dedicated response echoing its serial) -/
+def respond (m : Sim) (tag : String) : Sim :=
+  match m.calls.find? (fun c => c.1 = tag) with
+  | some c =>
+    if m.connected && m.st.writerAlive then
+      match m.st.place c.2.1 with
+      | .recorded e => { m with st := settle { m.st with place := upd m.st.place c.2.1 (.done (.response e)) } }
+      | _ => m
+    else m
+  | none => m
+
 def stepTok (m : Sim) (tok : String) : Sim :=
   if tok = "J" || tok = "J0" then connect m
   else if tok.startsWith "B" || tok.startsWith "b" then
@@ -354,15 +365,9 @@ def stepTok (m : Sim) (tok : String) : Sim :=
     let r := m.st.created
     { m with calls := m.calls ++ [(tag, r, short)],
              st := settle { m.st with created := r + 1, place := upd m.st.place r .ops } }
-  else if tok.startsWith "R" then
-    match m.calls.find? (fun c => c.1 = (tok.drop 1).toString) with
-    | some c =>
-      if m.connected && m.st.writerAlive then
-        match m.st.place c.2.1 with
-        | .recorded e => { m with st := settle { m.st with place := upd m.st.place c.2.1 (.done (.response e)) } }
-        | _ => m
-      else m
-    | none => m
+  else if tok.startsWith "R" then respond m (tok.drop 1).toString
+  else if tok.startsWith "Q:" then   -- several responses sent back to back, one write each, none awaited before the next
+    ((tok.drop 2).toString.splitOn ":").foldl respond m
   else m   -- H, W and V: ordinary traffic / a (general or dedicated) response nobody waits for: no effect on the commands
 
 def showResult (s : St) (r : Nat) : String :=
